@@ -1,12 +1,12 @@
 \* C03 thorough: pairs of complete versions: epoch absent/0/1/01, revision absent/0/00/1/~/a,
-\* upstream <= 2 characters over 0 1 9 a + . ~ plus ':' and '-' where D2 allows them
+\* upstream <= 2 characters over 0 1 A a + . ~ plus ':' and '-' where D2 allows them
 \* (1982 versions, 3 928 324 pairs)
 CONSTANTS
   HashOnString = FALSE
   TildeOrderZero = FALSE
   Epochs <- E_few
   Revs <- R_more
-  UpChars = {48, 49, 57, 97, 43, 46, 126}
+  UpChars = {48, 49, 65, 97, 43, 46, 126}
   MaxUp = 2
   Seps = TRUE
   Triples = FALSE
